@@ -18,7 +18,7 @@ func init() {
 	register(&CheckDef{
 		ID:    "C09",
 		Level: "exploration",
-		Rule: "three seeded scenarios. (a) single-node histories of journal and WAL commits, mode switch, checkpoints, imports and drops with retention periods from zero-length (1 ms) upward, retention sweeps landing between any two steps after seeded ageing (simulated time; file mtimes follow the fake clock), junk and *.tmp files planted in the LTX directory, and optionally a file backup service whose high-water mark gates removal; (b) a replica fed by a scripted primary with incremental files and snapshots in any order; (c) multi-node runs with faults whose end state is audited. Oracles: after every step the files kept form one contiguous, checksum-linked, self-verifying chain ending at the position; ReadLTXDir never returns a temporary or foreign name; a received snapshot is the only file afterwards; every removal issued by retention (observed at the OS seam) is not the newest file and, with a backup service, not beyond the high-water mark the service had returned. evaluations = runs; distinct = distinct (scenario, step kind, mode, retention class) tuples; non-trivial = run with >= 1 retention removal or snapshot observed",
+		Rule:  "three seeded scenarios. (a) single-node histories of journal and WAL commits, mode switch, checkpoints, imports and drops with retention periods from zero-length (1 ms) upward, retention sweeps landing between any two steps after seeded ageing (simulated time; file mtimes follow the fake clock), junk and *.tmp files planted in the LTX directory, and optionally a file backup service whose high-water mark gates removal; (b) a replica fed by a scripted primary with incremental files and snapshots in any order; (c) multi-node runs with faults whose end state is audited. Oracles: after every step the files kept form one contiguous, checksum-linked, self-verifying chain ending at the position; ReadLTXDir never returns a temporary or foreign name; a received snapshot is the only file afterwards; every removal issued by retention (observed at the OS seam) is not the newest file and, with a backup service, not beyond the high-water mark the service had returned. evaluations = runs; distinct = distinct (scenario, step kind, mode, retention class) tuples; non-trivial = run with >= 1 retention removal or snapshot observed",
 		Run:   runC09,
 		NonTrivial: func(r *Run) bool {
 			return r.Stats["c09.retention.removed"] > 0 || r.Stats["c09.snapshot.checked"] > 0 || r.Stats["audit.chain"] > 0
@@ -31,7 +31,10 @@ func init() {
 
 func runC09(r *Run) {
 	t := r.Tape
-	switch t.Pick([]int{5, 3, 2}) {
+	switch t.Pick([]int{5, 3, 2, 3}) {
+	case 3:
+		r.Cfg["scenario"] = "snapshot-crash"
+		c09SnapshotCrash(r)
 	case 0:
 		r.Cfg["scenario"] = "retention-history"
 		c09History(r)
@@ -403,4 +406,182 @@ func c09InstallRetentionOracle(r *Run, n *Node) {
 		}
 		r.Check(maxTXID < newest, "c09.retention-newest", "%s: retention removes the newest transaction file %s", n.Name, filepath.Base(path))
 	}
+}
+
+// c09SnapshotCrash: a replica that holds the files of one history receives a
+// snapshot of another history (a different primary) and dies at a seeded OS
+// call while it processes the frame - in particular between renaming the
+// snapshot into the log and removing the files it replaces. After the restart
+// the log must again be one chain ending at the position, and it must stay
+// that way across a retention sweep and a second restart.
+func c09SnapshotCrash(r *Run) {
+	t := r.Tape
+	pageSize := []uint32{512, 4096}[t.Next(2)]
+	compress := t.Chance(1, 2)
+	mk := func() *hist {
+		h := &hist{r: r, name: "db", pageSize: pageSize, jmode: ModeDelete, maxPages: 20}
+		h.n = newStaticPrimary(r, compress, nil)
+		return h
+	}
+	hB := mk()
+	if hB.n == nil || !hB.openConns(1) {
+		return
+	}
+	nB := t.Range(1, 4)
+	if !c06Commits(r, hB, t, nB, nil) || hB.ref.N() == 0 {
+		return
+	}
+	sc := NewScriptClient(r, hB.n.Store.ClusterID())
+	rep := r.NewNode(NodeCfg{Candidate: false, Client: sc, Compress: compress})
+	rep.Cfg.Leaser = litefs.NewStaticLeaser(false, "p", "http://p:20202")
+	rep.Cfg.Tune = func(s *litefs.Store) {
+		s.ReconnectDelay = 10 * time.Millisecond
+		s.Retention = time.Millisecond
+		s.RetentionMonitorInterval = time.Hour
+	}
+	if err := rep.Open(); err != nil {
+		r.Inconclusive("open replica: %v", err)
+		return
+	}
+	st := sc.WaitStream(2 * time.Second)
+	if st == nil {
+		r.Inconclusive("replica did not connect")
+		return
+	}
+	// history B reaches the replica as a snapshot followed by single files
+	dbB := hB.db()
+	first := t.Range(1, int(dbB.Pos().TXID))
+	if first == 1 || true {
+		// snapshot of B at its current position, then more commits as increments
+		b, spos, err := SnapshotBytes(dbB)
+		if err != nil {
+			r.Inconclusive("snapshot: %v", err)
+			return
+		}
+		st.Push(EncodeLTXFrame("db", b))
+		if !waitPos(rep, "db", spos, 3*time.Second) {
+			r.Failf("c09.replica-stuck", "replica did not take the first snapshot")
+			return
+		}
+		more := t.Range(0, 3)
+		from := dbB.Pos().TXID
+		if !c06Commits(r, hB, t, more, nil) {
+			return
+		}
+		for tx := from + 1; tx <= dbB.Pos().TXID; tx++ {
+			fb, err := os.ReadFile(dbB.LTXPath(tx, tx))
+			if err != nil {
+				r.Inconclusive("read: %v", err)
+				return
+			}
+			st.Push(EncodeLTXFrame("db", fb))
+		}
+		if !waitPos(rep, "db", dbB.Pos(), 3*time.Second) {
+			r.Failf("c09.replica-stuck", "replica did not follow history B")
+			return
+		}
+	}
+	posB, imB := dbB.Pos(), hB.ref
+	hB.closeConns()
+	// history A on another primary of the same cluster
+	hA := mk()
+	if hA.n == nil || !hA.openConns(1) {
+		return
+	}
+	if !c06Commits(r, hA, t, t.Range(1, int(posB.TXID)+2), nil) || hA.ref.N() == 0 {
+		return
+	}
+	snapA, posA, err := SnapshotBytes(hA.db())
+	if err != nil {
+		r.Inconclusive("snapshot: %v", err)
+		return
+	}
+	imA := hA.ref
+	hA.closeConns()
+	rel := "lower"
+	if posA.TXID == posB.TXID {
+		rel = "equal"
+	} else if posA.TXID > posB.TXID {
+		rel = "higher"
+	}
+	// die at the K-th OS call of the snapshot processing (0 = do not die)
+	K := t.Range(0, 14)
+	calls, died, diedAt := 0, false, ""
+	var img string
+	rep.OS.Hook = func(phase, call, op, path string) {
+		if phase != "pre" || died || K == 0 {
+			return
+		}
+		if !strings.HasPrefix(op, "PROCESSLTX") && !strings.HasPrefix(op, "REMOVEFILESEXCEPT") && !strings.HasPrefix(op, "APPLYLTX") {
+			return
+		}
+		calls++
+		if calls == K {
+			died, diedAt = true, call+":"+op
+			img, _ = rep.Kill("snap")
+		}
+	}
+	st.Push(EncodeLTXFrame("db", snapA))
+	if !waitPos(rep, "db", posA, time.Second) && !died {
+		r.Failf("c09.replica-stuck", "replica did not take the snapshot of the other history")
+		return
+	}
+	r.State("snapshot-crash/%s/%s", rel, diedAt)
+	if !died {
+		rep.OS.Hook = nil
+		chainOracle(r, rep, "db", "a snapshot of another history ("+rel+" TXID)")
+		return
+	}
+	r.Count("fault.crash")
+	rep.Close()
+	check := func(when string) bool {
+		db := rep.Store.DB("db")
+		if !r.Check(db != nil, "c09.restart", "%s: the database is gone", when) {
+			return false
+		}
+		pos := db.Pos()
+		want := imB
+		switch pos {
+		case posB:
+		case posA:
+			want = imA
+		default:
+			r.Failf("c09.crash-position", "%s (crash at %s while taking a snapshot @%s over history @%s): position %s is neither", when, diedAt, posA, posB, pos)
+			return false
+		}
+		disk, err := ReadDiskImage(db.Path())
+		if r.Check(err == nil, "c09.restart", "%s: %v", when, err) {
+			if d := DiffImages(disk, want); d != "" {
+				r.Failf("c09.crash-image", "%s (crash at %s): the database is not the image of its position %s: %s", when, diedAt, pos, d)
+				return false
+			}
+		}
+		chainOracle(r, rep, "db", when+" (crash at "+diedAt+", snapshot with a "+rel+" TXID @"+posA.String()+" over history @"+posB.String()+")")
+		return !r.Failed()
+	}
+	if err := rep.RestartFrom(img); err != nil {
+		r.Failf("c09.restart", "restart after a crash at %s failed: %v", diedAt, err)
+		return
+	}
+	if !check("after the restart") {
+		return
+	}
+	time.Sleep(50 * time.Millisecond)
+	if err := rep.Store.EnforceRetention(context.Background()); err != nil {
+		r.Failf("c09.retention", "EnforceRetention: %v", err)
+		return
+	}
+	if !check("after a retention sweep") {
+		return
+	}
+	if err := rep.Close(); err != nil {
+		r.Failf("c09.restart", "close: %v", err)
+		return
+	}
+	if err := rep.Open(); err != nil {
+		r.Failf("c09.restart", "second start after a crash at %s and a retention sweep failed: %v", diedAt, err)
+		return
+	}
+	check("after the second start")
+	r.Count("c09.snapshot-crash.checked")
 }
